@@ -342,6 +342,10 @@ def inline_new_helpers(d):
         for b in hblocks:
             for pl, role in _places(b['stmts']) + _places(b['term']):
                 pl['local'] = R0 if (direct and pl['local'] == 0) else pl['local'] + lb
+                for pe in pl['proj']:
+                    # `xs[i]`: the index local of an Index projection is a local of the helper too
+                    if isinstance(pe, dict) and pe.get('k') == 'Index' and isinstance(pe.get('local'), int):
+                        pe['local'] = pe['local'] + lb
             _retarget(b['term'], lambda x: x + bb)
         sp = call['span']
         # parameters := arguments
